@@ -152,13 +152,8 @@ struct AffineForm {
 
 impl AffineForm {
     fn from_constraint(constraint: &Constraint) -> Option<Self> {
-        // read the sides the way the linearizer will (flattened and simplified), so that
-        // a coefficient is recognised however it is spelled: -2 * x, (0 - 2) * x, (1 + 1) * x
-        let mut lhs = Self::from_exp(&constraint.lhs().clone().flatten().simplify())?;
-        lhs.merge(
-            Self::from_exp(&constraint.rhs().clone().flatten().simplify())?,
-            -1.0,
-        );
+        let mut lhs = Self::from_exp(constraint.lhs())?;
+        lhs.merge(Self::from_exp(constraint.rhs())?, -1.0);
         Some(lhs)
     }
 
@@ -442,6 +437,25 @@ impl BoundsAnalyzer {
     }
 
     fn propagate_affine_constraints(&mut self, constraints: &[Constraint], max_steps: usize) {
+        // read every row the way the linearizer will (flattened and simplified), so that a
+        // constant is recognised however it is spelled: -2 * x, (0 - 2) * x, (1 + 1) * x, x / -1
+        let constraints = constraints
+            .iter()
+            .map(|constraint| {
+                let lhs = constraint.lhs().clone().flatten().simplify();
+                if constraint.is_logic_assertion() {
+                    Constraint::new_logic_assertion(lhs, constraint.name().to_string())
+                } else {
+                    Constraint::new(
+                        lhs,
+                        constraint.constraint_type(),
+                        constraint.rhs().clone().flatten().simplify(),
+                        constraint.name().to_string(),
+                    )
+                }
+            })
+            .collect::<Vec<_>>();
+        let constraints = constraints.as_slice();
         let forms = constraints
             .iter()
             .map(AffineForm::from_constraint)
